@@ -19,6 +19,8 @@ RLIMIT = 80
 # solver budget with the sequence-level clause; for them C17's agreement is checked by the exhaustive
 # replay sweep of unit operand_reflect only (finite domains), not by Verus
 C17_FNS = {"parse_memory_access_arguments", "parse_tensor_addressing_operands_arguments", "parse_execution_mode_arguments"}
+import os as _os
+ARGS_VAL_FNS = set((_os.environ.get("ARGS_VAL_FNS") or "parse_memory_access_arguments,parse_tensor_addressing_operands_arguments").split(","))
 BIG = {"parse_operand", "parse_image_operands_arguments", "parse_loop_control_arguments", "parse_decoration_arguments",
        "parse_memory_access_arguments", "parse_execution_mode_arguments", "parse_tensor_addressing_operands_arguments"}
 
@@ -244,6 +246,10 @@ def emit_param_specs(g):
     return names
 
 
+def R22g(t):
+    return re.sub(r"(self\.decoder\.\w+\(\))\?", r"conv(\1)?", t)
+
+
 def emit_tracker_stub(g):
     tsrc = Source.get(TRACKER)
     gt = Gen("tmp")
@@ -306,6 +312,8 @@ def build(tier="quick", must_fail=False):
     g.raw(assemble_unit.first_word_spec(enum_num=ENUM_NUM))
     g.raw("""// the operand is a one-word operand whose word is the word at byte offset o
 pub open spec fn word_ok(op: dr::Operand, b: Seq<u8>, o: int) -> bool { first_word(op) == decoder::le32(b, o) }
+// C01/C02: the parameters of an enumerant are one-word operands, each the word it was read from
+pub open spec fn args_val(v: Seq<dr::Operand>, b: Seq<u8>, o: int) -> bool { forall|i: int| 0 <= i < v.len() ==> word_ok(#[trigger] v[i], b, o + 4 * i) }
 // C01/C02: value of the chunk parse_operand returns for a kind, read at offset o (strings: see Decoder::string, C11)
 pub open spec fn chunk_val(k: GOpKind, v: Seq<dr::Operand>, b: Seq<u8>, o: int) -> bool {
     k != GOpKind::LiteralString ==> (v.len() >= 1 && word_ok(v[0], b, o)
@@ -580,9 +588,14 @@ pub fn unreachable_panic() -> (r: u32) requires false { unimplemented!() }
             emit_fn(f, "r", C["parse_operand"][1], edit, r22=False)
             po_line = f.line
         else:
-            def edit(p):
+            VALFN = f.name in ARGS_VAL_FNS
+
+            def edit(p, VALFN=VALFN):
                 # ghost cut points between the sequential `if` blocks (keeps the query linear)
-                p.sub(r"(\n        \})(\n        if )", r"\1 proof { assert(step_inv(*old(self), *self)); }\2", "ghost-cut", required=False)
+                cut = "assert(step_inv(*old(self), *self));"
+                if VALFN:
+                    cut += " assert(args_val(params@, old(self).decoder.bytes@, old(self).decoder.offset as int) && self.decoder.offset == old(self).decoder.offset + 4 * params@.len());"
+                p.sub(r"(\n        \})(\n        if )", r"\1 proof { " + cut + r" }\2", "ghost-cut", required=False)
                 # a variadic parameter is read by `while !self.decoder.limit_reached() { params.push(..) }`: loop contract
                 for k in range(len(p.loops())):
                     p.add_loop_contract(k + 1, """                    invariant step_inv(*old(self), *self), old(self).decoder.wf(), old(self).decoder.limit is Some,
@@ -595,6 +608,10 @@ pub fn unreachable_panic() -> (r: u32) requires false { unimplemented!() }
             extra = ""
             if K in param_fns and f.name in C17_FNS:
                 extra = "\n        // C17: exactly the parameters reflection reports for this value, in order\n        r matches Ok(ops) ==> tags_of(ops@) =~= %s(%s)," % (param_fns[K], argname)
+            if VALFN:
+                extra += ("\n        // C01/C02: every parameter is a one-word operand equal to the word it was read from\n"
+                          "        r matches Ok(ops) ==> (args_val(ops@, old(self).decoder.bytes@, old(self).decoder.offset as int)"
+                          " && final(self).decoder.offset == old(self).decoder.offset + 4 * ops@.len()),")
             emit_fn(f, "r", ARGS + extra, edit)
     g.raw("}")
     if not must_fail:
@@ -609,6 +626,32 @@ pub fn unreachable_panic() -> (r: u32) requires false { unimplemented!() }
             g.raw("// %s:%d arm `GOpKind::%s =>` of parse_operand (R26)\npub fn parse_operand_val_%s(&mut self) -> (r: Result<Vec<dr::Operand>>)\n    %s\n{\n    Ok(%s)\n}" % (
                 GEN, po_line, K, K, ARM_VAL % {"K": K}, txt))
             g.contract_clauses += 2
+        # the same for the parameter lists of the two value-enum kinds: every arm `spirv::K::E => vec![..]` as a function (R26)
+        from .lift_reflect import split_arms
+        n_args_val = 0
+        for fname in ("parse_execution_mode_arguments", "parse_decoration_arguments"):
+            ff = [x for x in gfns if x.name == fname]
+            if not ff:
+                continue
+            tt = ff[0].core_text
+            mm = re.search(r"Ok\(match \w+ \{(.*)\}\)\s*\}\s*$", tt, re.S)
+            if not mm:
+                raise Lost("%s: unexpected shape" % fname)
+            for pat, expr in split_arms(mm.group(1)):
+                em = re.match(r"^spirv::(\w+)::(\w+)$", pat)
+                if not em or "LiteralString" in expr or "while" in expr:
+                    continue
+                vm = re.match(r"^(?:\{\s*)?(vec!\[.*\])(?:\s*\})?$", expr, re.S)
+                if not vm:
+                    raise Lost("%s arm %s: unexpected expression" % (fname, pat))
+                g.raw("// %s arm `%s =>` of %s (R26)\npub fn %s_val_%s(&mut self) -> (r: Result<Vec<dr::Operand>>)\n    requires old(self).decoder.wf(), old(self).decoder.limit is Some,\n"
+                      "    ensures %s\n        final(self).decoder.wf(), final(self).inst_index == old(self).inst_index,\n"
+                      "        r matches Ok(v) ==> (args_val(v@, old(self).decoder.bytes@, old(self).decoder.offset as int)\n"
+                      "            && final(self).decoder.offset == old(self).decoder.offset + 4 * v@.len()),\n{\n    Ok(%s)\n}" % (
+                          GEN, pat, fname, fname, em.group(2), FRAME, R22g(vm.group(1))))
+                n_args_val += 1
+                g.contract_clauses += 2
+        g.n_args_val = n_args_val
         g.raw("}")
     g.n_generated = len(gfns)
     g.raw("} // mod parser")
@@ -690,6 +733,29 @@ def witness(failure, ctx):
     big = (seeds.HEADER[:3] + [0xffffffff] + seeds.HEADER[4:] + seeds.inst(5, 0xfffffff1, *seeds.s("x")) + seeds.inst(71, 0xfffffff2, 1, 0xfffefdfc)
            + seeds.inst(21, 0xfffffff3, 32, 1) + seeds.inst(43, 0xfffffff3, 0xfffffff4, 0xfffefdfc) + seeds.inst(30, 0xfffffff5, 0xfffffff3, 0xf1f2f3f4))
     cases.append(("c01-bigwords", seeds.to_hex_bytes(big)))
+    # C02/C01: a string followed by further operands whose bytes are not UTF-8 (ids 128, 255, 0xffff..): accepted, same operands
+    for ids in ([128], [200, 255, 0xffff], [0xfffefdfc]):
+        cases.append(("c01-string-then-%x" % ids[0], seeds.to_hex_bytes(seeds.HEADER + seeds.inst(15, 4, 4, *(seeds.s("main") + [9] + ids)))))
+    # C10: the literal width depends on the declarations only, not on the magnitude of the ids involved
+    for tid in (0x3ffffe, 0x3fffff, 0x400000, 0x7fffffff, 0xffffffff):
+        for (top, width, lit) in ((21, 64, [5, 6]), (22, 64, [5, 6]), (21, 16, [5])):
+            tyw = seeds.inst(top, tid, width, 0) if top == 21 else seeds.inst(top, tid, width)
+            cases.append(("c10-bigid-%x-%d-%d" % (tid, top, width), seeds.to_hex_bytes(seeds.HEADER + tyw + seeds.inst(43, tid, 2, *lit))))
+        # selector with a huge value id, small type id
+        m = (seeds.HEADER + seeds.inst(19, 2) + seeds.inst(33, 3, 2) + seeds.inst(21, 4, 64, 0) + seeds.inst(43, 4, tid, 5, 0)
+             + seeds.inst(54, 2, 20, 0, 3) + seeds.inst(248, 21) + seeds.inst(251, tid, 22, 5, 0, 23)
+             + seeds.inst(248, 22) + seeds.inst(253) + seeds.inst(248, 23) + seeds.inst(253) + seeds.inst(56))
+        cases.append(("c10-bigsel-%x" % tid, seeds.to_hex_bytes(m)))
+    # C01: header: the id bound of the input is carried, whatever ids the module uses (bound too small / zero / huge)
+    for bound in (0, 1, 2, 0xffffffff):
+        hb = seeds.HEADER[:3] + [bound] + seeds.HEADER[4:]
+        cases.append(("c01-bound-%x" % bound, seeds.to_hex_bytes(hb + seeds.inst(19, 1) + seeds.inst(20, 7) + seeds.inst(21, 9, 32, 0))))
+    # C04: an OpConstant whose type is declared only afterwards / declared twice with different widths: whatever the loader
+    # accepts must disassemble without panicking
+    cases.append(("c04-const-before-type", seeds.to_hex_bytes(seeds.HEADER + seeds.inst(43, 1, 2, 7) + seeds.inst(21, 1, 64, 0))))
+    cases.append(("c04-const-before-float-type", seeds.to_hex_bytes(seeds.HEADER + seeds.inst(43, 1, 2, 7) + seeds.inst(22, 1, 64))))
+    cases.append(("c04-type-redeclared", seeds.to_hex_bytes(seeds.HEADER + seeds.inst(21, 1, 64, 1) + seeds.inst(43, 1, 2, 7, 0) + seeds.inst(22, 1, 32))))
+    cases.append(("c04-type-redeclared-wider", seeds.to_hex_bytes(seeds.HEADER + seeds.inst(21, 1, 32, 1) + seeds.inst(43, 1, 2, 7) + seeds.inst(21, 1, 64, 0))))
     # C01: crafted modules in layout order whose instructions must come back word-identical (or be rejected):
     # strings with non-UTF-8 bytes, with every length mod 4, 64-bit literals, all sections populated
     for bad in ([0xff, 0x41, 0, 0], [0x41, 0xc3, 0x28, 0], [0x41, 0x42, 0x43, 0x44, 0xe2, 0x82, 0, 0], [0x80, 0, 0, 0]):
@@ -734,6 +800,8 @@ def witness(failure, ctx):
                 bad = "seed module (layout order) does not come back word-identical"
             elif (name == "seed" or name.startswith("c01-") or name.startswith("c10-") or name.startswith("c03-")) and " same=1" not in o:
                 bad = "accepted input is not reproduced instruction for instruction (C01)"
+            elif " hdr=1" not in o:
+                bad = "the assembled header does not carry the input's magic / version / id bound (C01)"
         elif name == "seed" or name.startswith("c10-") or name.startswith("c03-specop-variadic") or name.startswith("c03-accept-"):
             bad = "a well-formed module is rejected: " + o
         elif o.startswith("Err"):
